@@ -39,7 +39,7 @@ if subprocess.run(["git", "-C", "/repo", "apply", "--check", patch]).returncode 
     sys.exit(f"{ident}: patch does not apply to /repo HEAD")
 subprocess.run(["git", "-C", "/repo", "apply", patch], check=True)
 try:
-    out = subprocess.run(["/verif/bin/hdrcheck", "-property", "all", "-verif", "/tmp/seed_verif"], capture_output=True, text=True).stdout
+    out = subprocess.run(["/verif/bin/hdrcheck", "-property", "all", "-verif", "/tmp/seed_verif"], capture_output=True).stdout.decode("utf-8", "replace")
 finally:
     subprocess.run(["git", "-C", "/repo", "checkout", "--", "."], check=True)
 assert not subprocess.run(["git", "-C", "/repo", "status", "--porcelain"], capture_output=True, text=True).stdout.strip()
